@@ -124,12 +124,14 @@ Definition same_except (f : field) (q q' : scp) : Prop :=
    removed.  Header fields own fixed bytes (ports the top three bits, cores the low five); cmd_rc owns bytes
    10-11, seq 12-13; the j-th present argument owns the four bytes from 14+4j; the payload owns everything
    from 14 + 4 * (number of present arguments). *)
+Definition presentn (a : option Z) : nat := match a with None => 0%nat | Some _ => 1%nat end.
+
 Definition arg_start (q : scp) (f : field) : nat :=
   match f with
   | FArg1 => 14
-  | FArg2 => 14 + 4 * Z.to_nat (present (arg1 q))
-  | FArg3 => 14 + 4 * Z.to_nat (present (arg1 q) + present (arg2 q))
-  | _ => 14 + 4 * Z.to_nat (n_present q)
+  | FArg2 => 14 + 4 * presentn (arg1 q)
+  | FArg3 => 14 + 4 * (presentn (arg1 q) + presentn (arg2 q))
+  | _ => 14 + 4 * (presentn (arg1 q) + presentn (arg2 q) + presentn (arg3 q))
   end.
 
 Definition others (f : field) (q : scp) (i : nat) (b : Z) : Z :=
